@@ -5,6 +5,7 @@ This module handles parsing of CSV files and other transaction formats.
 """
 
 import csv
+import math
 import re
 from datetime import datetime
 
@@ -266,6 +267,10 @@ def parse_generic_csv(filepath, format_spec, rules, source_name='CSV',
 
             # Parse amount (handle locale-specific formats)
             amount = parse_amount(amount_str, decimal_separator)
+
+            # float() accepts 'nan', 'inf', '-Infinity'; these are not amounts
+            if not math.isfinite(amount):
+                continue
 
             # Apply amount modifier if specified
             if format_spec.abs_amount:
